@@ -32,6 +32,8 @@ from .sym import (
     TCList,
     TConst,
     TDate,
+    TDictOf,
+    TPList,
     TEnum,
     TInt,
     TList,
@@ -63,6 +65,8 @@ class T:
     rec = TRec
     opaque = TOpaque
     listval = TListVal
+    plist = TPList
+    dictof = TDictOf
     path = TPath
 
 
@@ -251,7 +255,38 @@ def _p_today(interp, args, kwargs, env):
     return models.today(interp)
 
 
+def _p_forall_str(interp, args, kwargs, env):
+    (f,) = args
+    v = z3.String(interp.ctx.fresh_name("qs"))
+    body = sym.truth_term(interp.ctx, interp.call(f, [SV(v, "str")], {}))
+    body = z3.BoolVal(body) if isinstance(body, bool) else body
+    return sym.sbool(z3.ForAll([v], body))
+
+
+def _p_date_of(fmt_name):
+    def run(interp, args, kwargs, env):
+        from . import models
+
+        f = sym.ufun("parse_" + fmt_name, z3.StringSort(), z3.IntSort())
+        return sym.SDate(f(sym.zstr(args[0])))
+
+    return run
+
+
+def _p_valid_date(fmt_name):
+    def run(interp, args, kwargs, env):
+        f = sym.ufun("valid_" + fmt_name, z3.StringSort(), z3.BoolSort())
+        return sym.sbool(f(sym.zstr(args[0])))
+
+    return run
+
+
 PRIMS = {
+    "date_of_ymd": Prim("date_of_ymd", _p_date_of("Ymd")),
+    "valid_ymd": Prim("valid_ymd", _p_valid_date("Ymd")),
+    "date_of_y_m_d": Prim("date_of_y_m_d", _p_date_of("Y_m_d")),
+    "valid_y_m_d": Prim("valid_y_m_d", _p_valid_date("Y_m_d")),
+    "forall_str": Prim("forall_str", _p_forall_str),
     "implies": Prim("implies", _p_implies),
     "forall": Prim("forall", _quant("forall")),
     "exists": Prim("exists", _quant("exists")),
@@ -309,6 +344,36 @@ def today():
     import datetime
 
     return datetime.date.today()
+
+
+def _strp(s, fmt):
+    import datetime
+
+    try:
+        return datetime.datetime.strptime(s, fmt).date()
+    except ValueError:
+        return None
+
+
+def date_of_ymd(s):
+    return _strp(s, "%Y%m%d")
+
+
+def valid_ymd(s):
+    return _strp(s, "%Y%m%d") is not None
+
+
+def date_of_y_m_d(s):
+    return _strp(s, "%Y-%m-%d")
+
+
+def valid_y_m_d(s):
+    return _strp(s, "%Y-%m-%d") is not None
+
+
+def forall_str(f):
+    """native: unbounded quantification over strings cannot be executed; callers use map equality instead"""
+    raise NotImplementedError("forall_str is symbolic-only")
 
 
 # ---------------------------------------------------------------------------------------
@@ -387,7 +452,7 @@ def snapshot(v, memo=None):
         memo[id(v)] = r
         r.fields = {k: snapshot(x, memo) for k, x in v.fields.items()}
         return r
-    if isinstance(v, SList):
+    if isinstance(v, (SList, sym.PList)):
         r = v.copy()
         memo[id(v)] = r
         return r
@@ -431,6 +496,9 @@ def _resolve_parent(interp, path: str, loc: dict):
 def _replace_in_place(obj, freshv) -> bool:
     if isinstance(obj, SList) and isinstance(freshv, SList):
         obj.length, obj.arr = freshv.length, freshv.arr
+        return True
+    if isinstance(obj, sym.PList) and isinstance(freshv, sym.PList):
+        obj.base, obj.tail = freshv.base, freshv.tail
         return True
     if isinstance(obj, SMap) and isinstance(freshv, SMap):
         obj.has, obj.val = freshv.has, freshv.val
